@@ -211,7 +211,8 @@ def check_summary(ctx, P, rule):
                 order_ok = False
         ctx.inst(rule, "build() passes every builder field to the same-named LinkMetadata field", order_ok, "LinkMetadataBuilder::build -> LinkMetadata::new field mapping")
     # walk the builder chain of the non-empty-layout build
-    stop_idx = lambda t: callee_name(t) in ("std::ops::Index::index", "models::layout::supply_chain_item::SupplyChainItem::name")
+    stop_idx = lambda t: callee_name(t) in ("std::ops::Index::index", "models::layout::supply_chain_item::SupplyChainItem::name",
+                                            "slice::first", "slice::last", "std::slice::first", "std::slice::last", "core::slice::first", "core::slice::last")
     found = {}
     for lf in builds:
         cur = lf.data[1]["args"][0]
